@@ -247,6 +247,10 @@ PROPS = {
         witnesses=[],
         run=run_c14,
         level="partial",
+        technique="Lean 4 proofs (no out-of-bounds write, size, flags, name/UUID marking) for all declarations and buffer sizes + exhaustive correspondence (19 server types x all buffer sizes) with an independent structure monitor",
+        level_text="adv_never_oob / adv_fits / scan_rsp_never_oob / scan_rsp_fits: no write leaves the buffer and the returned size fits it, for every declaration and size; flags_present; name_complete_or_shortened; uuid16_complete_or_incomplete. Model = code with fix advdata-01.",
+        level_note="partial: exact tiling of the whole payload and the 128 bit list marking are checked exhaustively on the real code by the monitor, not proved in Lean; custom data cut mid-structure is a known finding.",
         design_ref="§5 C14",
+        assumptions=["Decl.WF: 128 bit UUIDs have 16 octets (guaranteed by the C++ types)"],
     ),
 }
